@@ -1243,12 +1243,16 @@ PLAIN_BODIES = [
     ("{neg(x)}", "n"), ("{:[x;y;z]}", "nnn"), ("{x,y}", "ll"), ("{(x*x)+y-z}", "nnn"), ("{{x+1}'x}", "l"),
     ("{x{x+y}'y}", "ll"), ("{[a];a::x;a+y}", "nn"), ("{5{(,x),y}/[1]}", ""), ("{x+y}", "nn"), ("{x}", "n"),
     ("{neg'x}", "l"), ("{mul(x;)'y}", "nl"), ("{x+#y}", "nl"), ("{(-x),-y}", "nn"), ("{mul(-x;#y)}", "nl"),
+    # a parameter used only in FUNCTION position (f = a monadic, g = a dyadic function passed by name)
+    ("{x(y)}", "fn"), ("{y(x)}", "nf"), ("{z(x;y)}", "nng"), ("{x(7)}", "f"), ("{x(y;z)}", "gnn"), ("{x'y}", "fl"),
+    ("{x/y}", "gl"), ("{x@y}", "fn"), ("{neg(x(y))}", "fn"), ("{x(y)+z}", "fnn"),
 ]
 
 
 def gen_plainfn(rng, j):
     body, kinds = PLAIN_BODIES[j]
-    val = lambda k: rng.choice([0, 1, -3, 7, 100]) if k == "n" else [rng.randrange(-5, 9) for _ in range(rng.choice([1, 2, 3, 3, 4]))]
+    val = lambda k: (rng.choice([0, 1, -3, 7, 100]) if k == "n" else {"fn": rng.choice(["neg", "idf"])} if k == "f"
+                     else {"fn": "mul"} if k == "g" else [rng.randrange(-5, 9) for _ in range(rng.choice([1, 2, 3, 3, 4]))])
     case = dict(kind="plainfn", body=body, args=[val(k) for k in kinds])
     if rng.random() < 0.5:
         # the wrapper is taken while the name holds another function, then the name is redefined to `body`
@@ -1258,7 +1262,15 @@ def gen_plainfn(rng, j):
     return case
 
 
+def _plain_py(v):
+    """the Python-side argument: lists as arrays, a function by its name (a symbol the call evaluates)"""
+    from klongpy.core import KGSym
+    return KGSym(v["fn"]) if isinstance(v, dict) else np.array(v) if isinstance(v, list) else v
+
+
 def _plain_lit(v):
+    if isinstance(v, dict):
+        return v["fn"]
     return "[" + " ".join(str(x) for x in v) + "]" if isinstance(v, list) else str(v)
 
 
@@ -1277,7 +1289,7 @@ def run_plainfn(ctx, drv, case):
         except Exception as e:
             exp = ["raises", type(e).__name__]
         try:
-            got = ["ok", canon(w(*[np.array(a) if isinstance(a, list) else a for a in args]))]
+            got = ["ok", canon(w(*[_plain_py(a) for a in args]))]
         except Exception as e:
             got = ["raises", type(e).__name__ + (":arity" if "Klong function called with" in str(e) else "")]
         if got != exp:
@@ -1287,7 +1299,7 @@ def run_plainfn(ctx, drv, case):
             if 0 <= k <= 3:
                 bad = (list(args) + [1])[:k]
                 try:
-                    r = w(*[np.array(a) if isinstance(a, list) else a for a in bad])
+                    r = w(*[_plain_py(a) for a in bad])
                     ctx.oracle_fail("wrapper:wrong-arity:plain-body", dict(case, step=what, bad_args=bad),
                                     f"RuntimeError (takes {len(args)})", canon(r),
                                     "klong[name](*args) must reject a wrong number of arguments")
